@@ -135,21 +135,29 @@ func (k msgServer) Complete(goCtx context.Context, msg *types.MsgComplete) (*typ
 			return nil, err
 		}
 		k.order.RemoveShard(ctx, oldShard.Id)
-		if len(oldShard.RenewInfos) > 1 {
-			for i := 0; i < len(oldShard.RenewInfos)-1; i++ {
-				order, _ := k.order.GetOrder(ctx, oldShard.RenewInfos[i].OrderId)
-				orderList = append(orderList, &order)
+		// every queued renewal order lists the old shard too, including one created after MsgMigrate
+		for _, info := range oldShard.RenewInfos {
+			if info.OrderId == order.Id || info.OrderId == orderInProgress.Id {
+				continue
+			}
+			renewOrder, found := k.order.GetOrder(ctx, info.OrderId)
+			if found {
+				orderList = append(orderList, &renewOrder)
 			}
 		}
-		for i, order := range orderList {
+		for _, order := range orderList {
 			newShards := make([]uint64, 0)
+			listed := false
 			for _, id := range order.Shards {
+				if id == shard.Id {
+					listed = true
+				}
 				if id != oldShard.Id {
 					newShards = append(newShards, id)
 				}
 			}
-			// first order has set new shard in shards in migrate
-			if i > 0 {
+			// the order named in MsgMigrate (and a renewal made after it) already lists the new shard
+			if !listed {
 				newShards = append(newShards, shard.Id)
 			}
 			order.Shards = newShards
